@@ -41,6 +41,31 @@ def gen_space(rng, hps, prefix="", depth=0, parents=None):
     return declared
 
 
+def gen_shared_diffdom(rng, hps):
+    """one name declared in two or three mutually exclusive branches with a DIFFERENT domain in each (same type): the value issued
+    must lie in the domain of the entry that is active"""
+    ks = rng.sample(["p", "q", "r"], rng.randint(2, 3))
+    hps.Choice("m", ks)
+    mode = rng.choice(["int", "int", "choice", "float"])
+    for i, k in enumerate(ks):
+        with hps.conditional_scope("m", [k]):
+            if mode == "int":
+                lo = [1, 100, 1000][i]
+                hps.Int("u", lo, lo + rng.randint(2, 9))
+            elif mode == "choice":
+                hps.Choice("u", [10 * i + j for j in range(rng.randint(2, 4))])
+            else:
+                hps.Float("u", float(10 * i), float(10 * i + 1), step=0.25)
+            if rng.random() < 0.4:
+                hps.Int("y%d" % i, 0, 2)
+            if mode != "float" and rng.random() < 0.4:
+                last = [h for h in hps.space if h.name == "u"][-1]
+                dom = list(last.values) if mode == "choice" else list(range(last.min_value, last.max_value + 1))
+                with hps.conditional_scope("u", rng.sample(dom, rng.randint(1, len(dom) - 1))):
+                    hps.Boolean("z%d" % i)
+    return ["m"]
+
+
 def gen_shared_space(rng, hps):
     """one name declared in two conditional branches, with a further conditional scope below it in one of them: an entry is
     active only if its whole chain of conditions holds"""
@@ -127,7 +152,9 @@ def run_case(cfg):
     from keras_tuner.tuners import randomsearch, gridsearch, hyperband, bayesian
     rng = random.Random(cfg["hseed"])
     hps = hpm.HyperParameters()
-    if cfg.get("shared"):
+    if cfg.get("shared") == "diffdom":
+        gen_shared_diffdom(random.Random(cfg["space_seed"]), hps)
+    elif cfg.get("shared"):
         gen_shared_space(random.Random(cfg["space_seed"]), hps)
     else:
         gen_space(random.Random(cfg["space_seed"]), hps)
@@ -192,6 +219,10 @@ def gen(rng):
         cfg["max_retries"] = rng.choice([0, 1, 2])
     if cfg["kind"] == "bayes":
         cfg["max_trials"] = rng.choice([3, 4, 5]); cfg["nsteps"] = 16
+    if rng.random() < 0.15:
+        cfg["shared"] = "diffdom"
+        if cfg["kind"] == "bayes":
+            cfg["max_trials"] = rng.choice([5, 7, 9]); cfg["nsteps"] = 30
     if cfg["kind"] == "grid":
         cfg["max_trials"] = rng.choice([6, 10, 14])
     return cfg
